@@ -174,6 +174,9 @@ def accessor_key(r):
         if "_buffers" in slots:
             return f"C15:CompositeTransform.{m}:member-buffers-changed"
         return f"C15:CompositeTransform.{m}:member-state-changed"
+    if base.endswith("Transformer") and "_modules[_transform]" in slots:
+        what = "wrapped-transform-conditioned" if ("_args" in slots or "_kwargs" in slots) else "wrapped-transform-changed"
+        return f"C15:SpatialTransformer.{m}:{what}"
     if "_parameters[params]" in slots:
         kind = "receiver-parameter-removed" if "_parameters[params] kind tensor -> value" in slots else "receiver-parameter-rebound"
         return f"C15:ParametricTransform[Parameter].{m}:{kind}"
@@ -253,8 +256,8 @@ MANIFEST_ENTRY = {
     "text": "Coq theorems (closed under the global context): (a) object-graph model with tensor identities, content versions and "
             "nn.Module containers: every with-argument accessor of Grid / Cube (center, origin, spacing, direction, extent, align_corners) "
             "and grid(g) / condition(...) of a transform leaves every previously existing object exactly as it was; data(arg) / unlink() "
-            "do so when the parameters are not held in _parameters (_refuted for Parameter-held parameters: __copy__ shares the _parameters "
-            "dict); a deep copy shares nothing with its original and, by induction over arbitrary traces, any interleaving of in-place "
+            "do so however the parameters are held (the copy made by grid / data / unlink gets its own _parameters dict; a plain shallow "
+            "copy, as used by inverse(), still shares it); a deep copy shares nothing with its original and, by induction over arbitrary traces, any interleaving of in-place "
             "edits and rebinding on either side leaves the other side unchanged at every step; (b) may-alias effect skeletons with interprocedural summaries (result may refer to / function "
             "may write which parameters), extracted from the source of all public functions of deepali.core.functional / "
             "deepali.losses.functional and their package callees (273 skeletons): every claimed summary is re-checked in Coq for all "
